@@ -24,6 +24,8 @@ if VERIF not in sys.path:
 from mc.explore import Acc, jsonable, h64  # noqa: E402
 
 EVIDENCE_SCHEMA = "/root/.vp/EVIDENCE.schema.json"
+# Runs against another checkout (VERIF_REPO: seeded changes, mutants) must not overwrite the evidence and replays of /repo
+OUT = VERIF if os.path.realpath(REPO) == "/repo" else os.path.join(VERIF, "build", "other_checkout")
 
 
 def load_known():
@@ -116,14 +118,14 @@ def main(argv):
         (listed if key in known else new).append(key)
 
     out_lines, rc = [], 0
-    os.makedirs(os.path.join(VERIF, "replays", pid), exist_ok=True)
+    os.makedirs(os.path.join(OUT, "replays", pid), exist_ok=True)
     for key in listed:
         out_lines.append("KNOWN-FINDING: property=%s %s [%s; %d cases, first %s]" % (
             pid, known[key]["what"], key, acc.viol[key][0], json.dumps(acc.viol[key][1])))
     for key in new:
         count, case, detail = acc.viol[key]
         fname = "%s_%016x.json" % (key.replace("/", "_"), h64(case))
-        path = os.path.join(VERIF, "replays", pid, fname)
+        path = os.path.join(OUT, "replays", pid, fname)
         with open(path, "w") as f:
             json.dump({"property": pid, "key": key, "case": case, "detail": detail, "count_in_run": count,
                        "tier": tier, "replay": "./check %s --replay %s" % (pid, path)}, f, indent=1)
@@ -167,8 +169,8 @@ def main(argv):
             jsonschema.validate(ev, json.load(f))
     except FileNotFoundError:
         pass
-    os.makedirs(os.path.join(VERIF, "evidence"), exist_ok=True)
-    with open(os.path.join(VERIF, "evidence", pid + ".json"), "w") as f:
+    os.makedirs(os.path.join(OUT, "evidence"), exist_ok=True)
+    with open(os.path.join(OUT, "evidence", pid + ".json"), "w") as f:
         json.dump(ev, f, indent=1)
     print("%s %s seed=%d: cases=%d evaluations=%d nontrivial=%d states=%d transitions=%d outcomes=%d "
           "violation_classes=%d (known %d) wall=%.1fs" % (pid, tier, seed, acc.cases, acc.evaluations, acc.nontrivial,
